@@ -186,6 +186,9 @@ def gen_world(rng, policy=None, allow_zero_runtime=False, closed_loop=False, con
     if closed_loop:
         # replicas of one description share nothing but the description (workload_loader.py --replication_factor)
         flags["replication_factor"] = rng.choice([1, 2, 3])
+        # invocations that are DROPPED (not finished) also unlock their successors
+        if rng.random() < 0.5:
+            flags["drop_skipped_tasks"] = True
     return {"workload": {"graphs": graphs, "profiles": profiles}, "workers": pools, "flags": flags,
             "policy": policy}
 
